@@ -20,7 +20,7 @@ def ties(rep):
     class T(db.Entity):
         i8 = Optional(int, size=8); i64 = Optional(int, size=64); u32 = Optional(int, size=32, unsigned=True)
         b = Optional(bool); f = Optional(float); s = Optional(str)
-        dec = Optional(Decimal, 10, 2); dec4 = Optional(Decimal, 12, 4)
+        dec = Optional(Decimal, 10, 2); dec4 = Optional(Decimal, 12, 4); dec15 = Optional(Decimal, 15, 2); dec18 = Optional(Decimal, precision=18, scale=8)
         t = Optional(dt.time); t0 = Optional(dt.time, precision=0); d = Optional(dt.date); ts = Optional(dt.datetime); ts3 = Optional(dt.datetime, precision=3)
         td = Optional(dt.timedelta); td0 = Optional(dt.timedelta, precision=0)
         raw = Optional(bytes)
@@ -29,7 +29,7 @@ def ties(rep):
     cases = [
         ('i8', -128), ('i8', 127), ('i64', 2 ** 63 - 1), ('i64', -2 ** 63), ('u32', 2 ** 32 - 1), ('b', True), ('b', False), ('f', 0.1), ('f', -1e308), ('f', 5e-324),
         ('s', 'x\u0000y'), ('s', '\U0001F600'), ('raw', b'\x00\xff'),
-        ('dec', Decimal('1.25')), ('dec', Decimal('-0.01')), ('dec', Decimal('1.005')), ('dec', Decimal('2.675')), ('dec4', Decimal('1.00005')), ('dec', Decimal('99999999.99')),
+        ('dec', Decimal('1.25')), ('dec', Decimal('-0.01')), ('dec', Decimal('1.005')), ('dec', Decimal('2.675')), ('dec4', Decimal('1.00005')), ('dec', Decimal('99999999.99')), ('dec15', Decimal('1234567890123.45')), ('dec15', Decimal('-9999999999999.99')), ('dec18', Decimal('1234567890.12345678')), ('dec18', Decimal('0.00000001')),
         ('t', dt.time(23, 59, 59, 999999)), ('t', dt.time(0, 0, 0)), ('t0', dt.time(1, 2, 3, 999999)), ('d', dt.date(1, 1, 1)), ('d', dt.date(9999, 12, 31)),
         ('ts', dt.datetime(2000, 2, 29, 23, 59, 59, 999999)), ('ts', dt.datetime(1, 1, 1)), ('ts3', dt.datetime(2024, 1, 1, 0, 0, 0, 999999)),
         ('td', dt.timedelta(days=1, microseconds=1)), ('td', dt.timedelta(days=-1, microseconds=1)), ('td', dt.timedelta(microseconds=-1)), ('td0', dt.timedelta(seconds=1, microseconds=999999)),
@@ -49,7 +49,11 @@ def ties(rep):
         if good: rep.add(Ob(name, 'concrete-tie', HOLDS, detail=repr(read)))
         else:
             key = None
-            if isinstance(val, Decimal): key = 'decimal-rounded-only-on-write'
+            if isinstance(val, Decimal):
+                scale = {'dec': 2, 'dec4': 4, 'dec15': 2, 'dec18': 8}[attr]
+                at_scale = val == val.quantize(Decimal(10) ** -scale)
+                many_digits = len(val.as_tuple().digits) > 15       # beyond what an IEEE double carries exactly
+                key = 'decimal-rounded-only-on-write' if not at_scale else ('sqlite-decimal-stored-as-real' if many_digits else None)
             if isinstance(val, dt.timedelta) and abs(val.days) >= 30000: key = 'sqlite-timedelta-real-precision'
             rep.add(Ob(name, 'concrete-tie', CEX, detail='value seen after flush %r, value read by a fresh session %r' % (seen, read), reproduced=True, key=key,
                        cex={'attr': attr, 'value': repr(val), 'seen': repr(seen), 'read': repr(read)},
